@@ -623,5 +623,21 @@ def r18_12(ctx):
                  ("a line of help text / a string is checked as a source statement, reported and rewritten by --replace" if not want else "the statement is no longer checked"), f.loc(call)))
 
 
+def r18_13(ctx):
+    """R18.13 a `#` inside a quoted string starts no comment: check_name_sanity() does not cut the line with a quote-unaware search for
+    `#` (`line.index("#")`, `.find`, `.split`, `.partition`, a slice at such a position) - `default y if FOO_B = "a#b"` is a
+    compliant line; cut at the `#` it is reported (`config name a should be all uppercase`) and --replace writes the cut line
+    back (fixed defect 5.65)."""
+    repo = ctx.repo
+    f = repo.func(f"{MOD}:IndentAndNameChecker.check_name_sanity")
+    ctx.analysed(f.qual)
+    prm = f.node.args.args[1].arg
+    cuts = [n for n in ast.walk(f.node) if isinstance(n, ast.Call) and isinstance(n.func, ast.Attribute) and n.func.attr in ("index", "find", "rindex", "rfind", "split", "rsplit", "partition", "rpartition")
+            and n.args and isinstance(n.args[0], ast.Constant) and n.args[0].value == "#" and isinstance(n.func.value, ast.Name) and n.func.value.id == prm]
+    construct = "IndentAndNameChecker.check_name_sanity/the comment is cut off outside quoted strings only"
+    (ctx.bad(construct, f"`{ast.unparse(cuts[0])}` finds the first `#` wherever it stands: a string literal with a `#` is cut in two, its first half is checked as config names and "
+             "--replace writes the damaged line back", f.loc(cuts[0])) if cuts else ctx.ok(construct, f.loc()))
+
+
 def rules():
-    return [("R18.12", r18_12, 5), ("R18.11", r18_11, 4), ("R18.10", r18_10, 7), ("R18.9", r18_9, 2), ("R18.8", r18_8, 1), ("R18.7", r18_7, 3), ("R18.1", r18_1, 3), ("R18.2", r18_2, 4), ("R18.3", r18_3, 3), ("R18.4", r18_4, 2), ("R18.5", r18_5, 4), ("R18.6", r18_6, 4)]
+    return [("R18.13", r18_13, 1), ("R18.12", r18_12, 5), ("R18.11", r18_11, 4), ("R18.10", r18_10, 7), ("R18.9", r18_9, 2), ("R18.8", r18_8, 1), ("R18.7", r18_7, 3), ("R18.1", r18_1, 3), ("R18.2", r18_2, 4), ("R18.3", r18_3, 3), ("R18.4", r18_4, 2), ("R18.5", r18_5, 4), ("R18.6", r18_6, 4)]
